@@ -156,6 +156,8 @@ class ExprMixin(object):
                 return [(st, c)]
             ext = self.reg.externals.get(d)
             if ext is not None and ext != "drop" and not ext.params and ext.returns is not NONE:
+                if ext.pure:
+                    return [(st, core.ufun("const_" + d, [], ext.returns))]      # a fixed (unknown) constant
                 return self.call_contract(ext, [], {}, st, e)      # attribute-like external (e.g. os.environ)
             return [(st, V(MODULE, None, (d,)))]
         res = []
@@ -492,10 +494,26 @@ class ExprMixin(object):
                 return [(st, core.sinter(a, b))]
         if isinstance(a.ty, Set) and b.ty in (EMPTY_SET, EMPTY_LIST, EMPTY_DICT):
             return [(st, a)] if isinstance(op, (ast.Sub, ast.BitOr)) else [(st, core.sempty(a.ty.elem))]
-        if a.ty is PY or b.ty is PY:
-            if isinstance(op, ast.Add):
-                self.notes.append("+ on dynamic values is uninterpreted")
-                return [(st, core.ufun("py_add", [core.to_py(a), core.to_py(b)], PY))]
+        if (a.ty is PY or b.ty is PY) and isinstance(op, ast.Add) and a.ty in (PY, STR, INT, BOOL) and b.ty in (PY, STR, INT, BOOL):
+            P = core.py_sort()
+            pa, pb = core.to_py(a), core.to_py(b)
+            both_str = z3.And(P.is_PStr(pa.t), P.is_PStr(pb.t))
+            both_num = z3.And(core.py_isnum(pa.t), core.py_isnum(pb.t))
+            res = []
+            if self.in_spec:
+                cat = core.str_concat(V(STR, P.s(pa.t)), V(STR, P.s(pb.t)))
+                return [(st, V(PY, z3.If(both_str, P.PStr(cat.t), P.PInt(core.py_num(pa.t) + core.py_num(pb.t)))))]
+            s1, rest = self.fork(st, both_str, getattr(node, "lineno", None), "str+str")
+            if s1 is not None:
+                cat = core.str_concat(V(STR, P.s(pa.t)), V(STR, P.s(pb.t)))
+                res.append((s1, V(PY, P.PStr(cat.t))))
+            if rest is not None:
+                s2, bad = self.fork(rest, both_num, getattr(node, "lineno", None), "num+num")
+                if s2 is not None:
+                    res.append((s2, V(PY, P.PInt(core.py_num(pa.t) + core.py_num(pb.t)))))
+                if bad is not None:
+                    self.do_raise(bad, "TypeError")
+            return res
         raise OutsideSubset("binary %s on %r, %r" % (type(op).__name__, a.ty, b.ty))
 
     def list_concat(self, a, b, st):
@@ -874,4 +892,6 @@ def join_ty(a, b):
         return b
     if {a, b} == {INT, BOOL}:
         return INT
+    if a in (INT, BOOL, STR, NONE) and b in (INT, BOOL, STR, NONE):
+        return PY
     return None
